@@ -105,6 +105,12 @@ def prog(env, case):
                 for j in range(i, n):
                     env.check_eq(Gv[i, j], last.barx[0][i, j], "G_value is not the last solver solution",
                                  signature=tag + ":instance-last")
+    if not env.sym:
+        Gl = np.asarray(w.optimal_G, dtype=float)
+        Gp = np.asarray(pep.G_value, dtype=float)
+        env.check(np.abs(Gl - Gp).max() <= 1e-6 * (1 + np.abs(Gl).max()), "G_value is not the last solver solution "
+                  "(max deviation %g, Gram scale %g)" % (np.abs(Gl - Gp).max(), np.abs(Gl).max()),
+                  signature=tag + ":instance-last")
     # ---- what the last problem is --------------------------------------------------------------------------------------
     if n_solves_expected > 1:
         if backend == 'mosek':
